@@ -1,7 +1,8 @@
 """C15 oracle: consensus pseudo-reads are well formed."""
 import re
 
-REF = 'ACGTTGCAAGTCAGGTCATTGACC'
+REF = 'ACgtTGcaAGTCAGGTCATTGACC'      # soft-masked (lower-case) stretches as in real genome FASTA files
+REFU = REF.upper()
 
 
 def covered(reads):
@@ -68,7 +69,11 @@ def record_clause(rec, ref, calls, max_N_span, cov_runs):
         if b not in cov_runs:
             return 'block_not_a_coverage_run'
     md = rec.get_tag('MD')
+    if not re.fullmatch(r'[0-9]+([A-Z][0-9]+)*|([0-9]*[A-Z])+[0-9]*', md):
+        return 'MD_format'
     dec, used = md_decode(md, rec.query_sequence)
-    if used != m or dec.upper() != ref_aligned.upper():
+    if used != m or dec != ref_aligned.upper():
         return 'MD'
+    if sum(1 for ch in md if ch.isalpha()) != sum(1 for a, b in zip(rec.query_sequence.upper(), ref_aligned.upper()) if a != b):
+        return 'MD_spurious_mismatch'
     return None, blocks
